@@ -1762,6 +1762,141 @@ def run_vsa(ck, hbin, lines, meta):
     return ok
 
 
+# ---------------------------------------------------------------- follow-up round: samplers of the constrained spaces (csamp)
+CS_BASE = {"sphere": ([-2.0, -2.0, -2.0], [2.0, 2.0, 2.0]), "torus": ([-4.0, -4.0, -2.0], [4.0, 4.0, 2.0]),
+           "plane": ([-2.0, -2.0, -2.0], [2.0, 2.0, 2.0])}
+CS_CUTS = {"sphere": [(-0.5, 0.5), (0.2, 2.0), (-2.0, -0.3), (-0.9, 0.1), (0.6, 0.95), (-0.25, 7.0)],
+           "torus": [(-0.4, 0.4), (0.3, 2.0), (-2.0, 0.0), (-1.5, 4.0), (0.5, 2.5), (-4.0, -2.2)],
+           "plane": [(-0.3, 0.3), (0.5, 2.0), (-2.0, -0.5), (0.0, 0.25), (-1.0, 1.5)]}
+
+
+def cs_point(r, man):
+    if man == "sphere":
+        z = r.uniform(-1, 1)
+        t = r.uniform(-PI, PI)
+        q = math.sqrt(max(0.0, 1 - z * z))
+        return [q * math.cos(t), q * math.sin(t), z]
+    if man == "torus":
+        u, v = r.uniform(-PI, PI), r.uniform(-PI, PI)
+        q = 2.0 + math.cos(v)
+        return [q * math.cos(u), q * math.sin(u), math.sin(v)]
+    x, y = r.uniform(-2, 2), r.uniform(-2, 2)
+    return [x, y, 1.0 - x - y]
+
+
+def gen_csamp_script(r, nconf, ndraws, counts, seed):
+    """ambient boxes that CUT the manifold: one or two coordinates get a tight / asymmetric range (1/8: the generous box of
+    the shipped demos, where the projection never leaves the box)"""
+    lines = ["spacebounds seed=%d" % seed]
+    meta = []
+    tries = 0
+    while len(meta) < nconf and tries < 50 * nconf:
+        tries += 1
+        man = r.choice(["sphere", "sphere", "torus", "plane"])
+        which = r.choice(["proj", "proj", "atlas", "tb"])
+        kind = r.choice(["u", "n", "g"])
+        lo, hi = list(CS_BASE[man][0]), list(CS_BASE[man][1])
+        ncut = r.choice([0, 1, 1, 1, 1, 1, 2, 2])
+        cut = []
+        for _ in range(ncut):
+            j = r.below(3) if man != "torus" or r.chance(1, 2) else 2
+            a, b = r.choice(CS_CUTS[man])
+            if man == "torus" and j == 2 and (a < -2.0 or b > 2.5):
+                a, b = -0.4, 0.4
+            lo[j], hi[j] = a, b
+            cut.append(j)
+        cen = None
+        for _ in range(400):
+            p = cs_point(r, man)
+            if all(l + 1e-3 <= v <= h - 1e-3 for l, h, v in zip(lo, hi, p)):
+                cen = p
+                break
+        if cen is None:
+            continue
+        dist = r.choice([0.05, 0.3, 0.75, 2.0, 10.0]) if kind != "u" else 0.0
+        n = ndraws if which == "proj" else max(50, ndraws // 8)
+        lines.append(" ".join(["csamp", kind, which, man, str(n), "6", fb(dist)] + [fb(v) for v in lo] + [fb(v) for v in hi]
+                              + [fb(v) for v in cen]))
+        meta.append({"kind": kind, "which": which, "man": man, "lo": lo, "hi": hi, "cut": len(set(cut)), "dist": dist, "n": n})
+        counts("csamp:%s-%s-%s" % (which, man, kind))
+        counts("csamp-cut-coordinates:%d" % len(set(cut)))
+    return lines, meta
+
+
+def run_csamp(ck, hbin, lines, meta, pre=None):
+    impl, rc, err = pre if pre is not None else ck.run_bin(hbin, lines, timeout=3000)
+    impl = impl or []
+    ck.traces_validated += 1
+    ok = True
+    if rc != 0:
+        ck.report({"engine": "spacebounds", "clause": "harness-exit", "what": "harness exited with %s (csamp)" % rc},
+                  script=lines, observed=(err or "")[-2000:], engine="spacebounds")
+        return False
+    phase2, back = [lines[0]], []
+    for i, m in enumerate(meta):
+        line = impl[i] if i < len(impl) else "<missing>"
+        if line.startswith("skip"):
+            ck.count("csamp-skip:%s-%s" % (m["which"], m["man"]))
+            ck.case(("csamp", lines[i + 1]), False)
+            continue
+        h = kv(line)
+        ck.case(("csamp", lines[i + 1]), m["cut"] > 0)
+        try:
+            bad, pout, onface = int(h["bad"]), int(h["pout"]), int(h["onface"])
+        except Exception:
+            ck.report({"engine": "spacebounds", "op": "csamp", "clause": "protocol", "what": "unparsable csamp output"},
+                      script=[lines[0], lines[i + 1]], observed=[line], engine="spacebounds")
+            ok = False
+            continue
+        ck.count("csamp-outputs:%s" % m["which"], m["n"])
+        if m["which"] == "proj":
+            ck.count("csamp-projection-left-the-box", pout)
+        ck.count("csamp-output-on-a-bound-face:%s" % m["which"], onface)
+        if bad:
+            rec = {"engine": "spacebounds", "op": "csamp", "clause": "sampler-inbounds", "which": m["which"], "kind": m["kind"],
+                   "what": "%d of %d states returned by the %s sampler of the constrained space (%s, box %r..%r) do not satisfy the "
+                           "bounds; first %s" % (bad, m["n"], {"u": "uniform", "n": "near", "g": "Gaussian"}[m["kind"]], m["man"],
+                                                 m["lo"], m["hi"], line.split("first=", 1)[1].split(" trace=")[0])}
+            if ck.report(rec, script=[lines[0], lines[i + 1]], observed=[line[:400]], engine="spacebounds"):
+                ck.log("property failure (csamp %s %s %s): bad=%d" % (m["which"], m["man"], m["kind"], bad))
+                ok = False
+            continue
+        tr = line.split(" trace=", 1)[1] if " trace=" in line else ""
+        for e in [x for x in tr.split(";") if x]:
+            if e.startswith("?"):
+                ck.count("csamp-trace:project-called-%s-times" % e[1:])
+                continue
+            tin, tproj, tout = [[bf(x) for x in part.split(",")] for part in e.split("/")]
+            # independent of the model: the ambient sample is in bounds, the returned state is the CLAMPED projection result
+            want = rn_enforce(m["lo"], m["hi"], tproj)
+            if [fb(v) for v in want] != [fb(v) for v in tout] or not rn_sat(m["lo"], m["hi"], tin):
+                ck.disagreements += 1
+                ck.report({"engine": "spacebounds", "op": "csamp", "clause": "projected-order", "which": m["which"],
+                           "what": "returned %r is not enforceBounds(projection result %r) (ambient sample %r)" % (tout, tproj, tin)},
+                          script=[lines[0], lines[i + 1]], observed=[line[:400]], found_input=False, engine="spacebounds",
+                          obligation="correspondence spacebounds: ProjectedStateSampler = project, then enforceBounds")
+                ok = False
+                break
+            phase2.append(" ".join(["psamp", "rv", "3"] + [fb(v) for v in m["lo"]] + [fb(v) for v in m["hi"]] + [fb(v) for v in tproj]))
+            back.append((i, tout))
+    if len(phase2) > 1:
+        model, rc2, err2 = ck.run_bin(ck.driver(DRIVER), phase2)
+        model = model or []
+        for j, (i, tout) in enumerate(back):
+            mo = model[j] if j < len(model) else "<missing>"
+            want = "sat=1 | " + " ".join(fb(v) for v in tout)
+            ck.count("csamp-lockstep-lines")
+            if canon(mo) != canon(want):
+                ck.disagreements += 1
+                ck.report({"engine": "spacebounds", "op": "csamp", "what": "model/implementation disagreement"},
+                          script=[phase2[0], phase2[j + 1]], expected=[mo], observed=[want], found_input=False,
+                          engine="spacebounds",
+                          obligation="correspondence spacebounds: ProjectedStateSampler vs projectedSample (project, then clamp)")
+                ok = False
+                break
+    return ok
+
+
 def gen_vreal_script(r, nconf, iters, counts, seed):
     lines = ["spacebounds seed=%d" % seed]
     meta = []
@@ -2321,6 +2456,20 @@ def run(ck):
         if len(ck.violations) >= 3:
             break
 
+    ck.log("stage: (b4) samplers of the constrained spaces over boxes that cut the manifold")
+    nscripts, nconf, ndraws = (6, 12, 1600) if quick else (12, 40, 8000)
+    jobs = []
+    for i in range(nscripts):
+        r = ck.rng.fork("csamp%d" % i)
+        jobs.append(gen_csamp_script(r, nconf, ndraws, counts, seed=ck.seed * 1000 + 700 + i))
+    with ThreadPoolExecutor(max_workers=WORKERS) as ex:
+        res = list(ex.map(lambda j: ck.run_bin(hbin, j[0], timeout=3000), jobs))
+    for (lines, meta), pre in zip(jobs, res):
+        run_csamp(ck, hbin, lines, meta, pre=pre)
+        ck.count("scripts:csamp")
+        if len(ck.violations) >= 3:
+            break
+
     ck.log("stage: (b') bounds changed after")
     # (b') bounds changed after the sampler objects were allocated
     nscripts, nconf, ndraws = (8, 40, 2000) if quick else (24, 80, 10000)
@@ -2376,7 +2525,7 @@ def replay(ck, data):
             if mo != o:
                 print("   model: %s" % mo)
                 bad = True
-        if ln.startswith(("samp", "alias")) and "bad=0" not in o:
+        if ln.startswith(("samp", "alias", "csamp")) and "bad=0" not in o and not o.startswith("skip"):
             bad = True
         if ln.startswith("rebound") and not o.startswith("skip"):
             b = kv(o).get("bad", "1")
